@@ -5,7 +5,8 @@
 //!       {op:"sign", ctx, asset, title}     Builder::from_shared_context(ctx) + ctx.signer()
 //!       {op:"cancel", ctx} {op:"check", ctx}
 //!       {op:"signer", ctx} {op:"resolver", ctx}      the write-once cells (address of what they return)
-//!       {op:"builder", json|toml|path+value}        Settings builder API (must not touch the thread-local settings)
+//!       {op:"builder", json|toml|path+value|path+table+patch[+set]}   Settings builder API (must not touch the thread-local settings)
+//!       {op:"resolve", ctx, uri}                     one GET through Context::resolver() (allow-list of that context)
 //!       {op:"tls_set", toml}  {op:"tls_get"}         legacy thread-local entry points
 //!       {op:"legacy_read", asset}                    deprecated Reader::from_stream (reads the thread-local settings)
 //!     every op: pre_us (sleep before), yields (thread::yield_now calls before)
@@ -140,7 +141,24 @@ fn do_op(env: &Env, op: &Value) -> Pending {
         }
         "builder" => {
             let before = tls_digest();
-            let res = if let Some(j) = op["json"].as_str() {
+            let res = if op["table"].as_bool().unwrap_or(false) {
+                // a whole section (JSON table): the default section with the patch applied
+                let mut v = serde_json::to_value(Settings::new()).unwrap_or(Value::Null);
+                for seg in op["path"].as_str().unwrap_or("").split('.') {
+                    v = v[seg].clone();
+                }
+                if let (Some(o), Some(pm)) = (v.as_object_mut(), op["patch"].as_object()) {
+                    for (k, x) in pm {
+                        o.insert(k.clone(), x.clone());
+                    }
+                }
+                if op["set"].as_bool().unwrap_or(false) {
+                    let mut s = Settings::new();
+                    s.set_value(op["path"].as_str().unwrap_or(""), v).map(|_| s)
+                } else {
+                    Settings::new().with_value(op["path"].as_str().unwrap_or(""), v)
+                }
+            } else if let Some(j) = op["json"].as_str() {
                 Settings::new().with_json(j)
             } else if let Some(t) = op["toml"].as_str() {
                 Settings::new().with_toml(t)
@@ -151,6 +169,20 @@ fn do_op(env: &Env, op: &Value) -> Pending {
             match res {
                 Ok(s) => json!({"k": "settings", "digest": sha(serde_json::to_string(&s).unwrap_or_default().as_bytes()), "tls_same": before == after}),
                 Err(e) => json!({"k": "err", "kind": err_class(&e), "tls_same": before == after}),
+            }
+        }
+        "resolve" => {
+            // one request through the context's own default resolver stack (allow-list refusals happen before any I/O;
+            // an allowed request goes to a closed loopback port and fails fast)
+            use c2pa::http::SyncHttpResolver;
+            let req = c2pa::http::http::Request::builder().method("GET").uri(op["uri"].as_str().unwrap_or("http://127.0.0.1:1/x")).body(Vec::new()).expect("request");
+            match ctx.expect("ctx").resolver().http_resolve(req) {
+                Ok(r) => json!({"k": "http", "disallowed": false, "class": format!("status{}", r.status().as_u16())}),
+                Err(e) => {
+                    let d = format!("{e:?}");
+                    let class = d[..d.find(|c: char| !(c.is_alphanumeric() || c == '_')).unwrap_or(d.len())].to_string();
+                    json!({"k": "http", "disallowed": class == "UriDisallowed", "class": class})
+                }
             }
         }
         "tls_set" => match Settings::from_toml(op["toml"].as_str().unwrap_or("")) {
@@ -244,5 +276,5 @@ pub fn run(case: &Value) -> Value {
     let conc = one_run(case, true);
     let seq = one_run(case, false);
     let main_tls_after = tls_digest();
-    json!({"r": "ok", "conc": conc, "seq": seq, "main_tls_same": main_tls_before == main_tls_after})
+    json!({"r": "ok", "conc": conc, "seq": seq, "main_tls_same": main_tls_before == main_tls_after, "main_tls": main_tls_after})
 }
